@@ -7,7 +7,9 @@ T  differential correspondence: the compiled Lean models on Float (lean/Drivers/
    routines (harness/c/c23_linalg.c) on the same hex-encoded inputs -- bitwise in the scalar build, within a
    stated relative tolerance in the AVX build (where only the sign of a zero can differ).
 S  property oracle on the real code alone: sparse / band routines against dense arithmetic done here,
-   factor / solve residuals, and the certificate checkers (eig3, boxQP, QCQP) whose soundness is a theorem.
+   factor / solve residuals, the certificate checkers (eig3, boxQP, QCQP) whose soundness is a theorem, and the row
+   supernodes (res_rowsuper of mju_transposeSparse, mju_superSparse) against the definition -- identical rows --
+   directly and through their consumers (sqrMatTDSparse*, AVX mulMatVecSparse).
 """
 import math
 import struct
@@ -16,8 +18,8 @@ USES_GEN = False
 
 META = {
     "technique": "hand models mirroring the C loops (generic over MjNum: same traversal order, same association of every sum, bounds-carrying or checked array accesses) + Lean 4 proofs over the reals (loop invariants over Nat.fold / checked loops, Finset sums, index arithmetic by omega, field_simp/ring for the Cholesky algebra, Mathlib matrices for the certificates) + differential correspondence of the compiled models on Float against the real routines (bitwise in the scalar build, 1e-10 relative in the AVX build; observed deviation 0) + certificate / dense-reference oracle on the real outputs",
-    "text": "Models (lean/MjProof/Model/LinAlg.lean, Model/Sparse.lean) of mju_dot, mju_mulMatVec, mju_mulMatTVec, mju_sqrMatTD, mju_cholFactor, mju_cholSolve, mju_cholUpdate, mju_dense2Band, mju_band2Dense, mju_bandDiag, mju_factorLU, mju_solveLU, mju_dotSparse, mju_mulMatVecSparse, mju_mulMatTVecSparse, mju_addToSymSparse, mju_mulSymVecSparse, mju_sparse2dense, mju_dense2sparse, mju_compressSparse, mju_transposeSparse, mju_combineSparseCount and mju_combineSparse. Proved for every size and every input (over the reals): mju_dot (4-accumulator unrolling + remainder group) and mju_mulMatVec / mju_mulMatTVec / mju_sqrMatTD equal the sums that define them; band_dense_roundtrip: for all ntotal, nband >= 1, ndense <= ntotal and both flg_sym, band2Dense(dense2Band(A)) reproduces A on every band-admissible entry, is 0 elsewhere in the lower triangle and 0 / mirrored above the diagonal, with every access in range, and mju_bandDiag is the address of (i,i); on ANY CSR-style pattern (row extents inside the buffers and stored columns < nc are the only assumptions: empty rows, unsorted and duplicate columns, gaps, rows in any order, the uncompressed layout): mju_dotSparse = dense dot with the scattered vector, mju_mulMatVecSparse = dense M v, mju_mulMatTVecSparse = dense M^T v (zero multipliers skipped), mju_addToSymSparse = dense addition with optional mirroring; mju_mulSymVecSparse on symmetric lower-triangular storage (diagonal last in every row) = (D + strict_lower(D)^T) v with every access in range; with distinct columns per row mju_sparse2dense writes the represented matrix; sparse2dense(dense2sparse(M)) = M whenever the capacity is at least the number of non-zeros (no overflow exit, valid sorted pattern), and dense2sparse(sparse2dense(P)) represents the same matrix as P; mju_compressSparse (rows in increasing address order) performs only in-range accesses, makes the rows contiguous and keeps exactly the entries with |v| > minval (all of them for minval < 0); mju_transposeSparse (addresses relative to rowadr[0] = 0, enough output capacity) performs only in-range accesses and its output row c represents column c of the input, contiguous, with valid and non-decreasing column indices; mju_combineSparse on strictly increasing index arrays whose union fits the buffers performs only in-range accesses, returns nnz = size of the union (as counted by mju_combineSparseCount), a strictly increasing result pattern and a*dst + b*src as the represented vector (in-place backward merge, identical-pattern fast path and the a == 1 shortcut included); cholSolve_correct: for every matrix with non-zero diagonal mju_cholSolve solves (L L^T) x = b with L the lower triangle (upper triangle ignored); cholFactor_reconstructs_partial: if mju_cholFactor reports full rank (mindiag > 0) then L has positive diagonal, L L^T = A on the lower triangle and the upper triangle is untouched, hence (for symmetric A) factor + solve gives A x = b; cholUpdate_eq_refactor_partial: if mju_cholUpdate reports rank n then L' L'^T = L L^T +/- x x^T; certificate theorems: A V = V diag(lam), V^T V = I imply A = V diag(lam) V^T with eigenvector columns (eig3), KKT sign conditions imply global optimality of a box-constrained QP with symmetric PSD Hessian (boxQP), and stationarity + complementary slackness with a non-negative multiplier imply global optimality for the ellipsoid-constrained QP (QCQP2/3/QCQP).",
-    "note": "Real numbers, not IEEE: rounding is outside the proofs (the tie to the compiled code is bitwise on Float in the scalar build; in the AVX build only the sign of a zero could differ, none observed). `_partial` theorems: cholFactor is proved correct on the full-rank path (what is missing: that an SPD input always takes it; the deficiency branch that substitutes mindiag and clears the column is covered by the correspondence only); cholUpdate is proved to produce *a* Cholesky factor of the updated matrix on the no-rank-loss path (uniqueness of the factor, i.e. literal equality with mju_cholFactor of the updated matrix, and the mjMINVAL branch are not proved). Modelled and tied bitwise but without a theorem (sampled: differential + dense oracle): mju_factorLU / mju_solveLU (oracle: L U = P A, (L U) x = P b). Not modelled, oracle only on the real code: mju_eig3, mju_boxQP, mju_QCQP2/3/QCQP (iterative; checked against the certificates whose soundness is proved), mju_cholFactorBand / mju_cholSolveBand / mju_bandMulMatVec (against dense arithmetic on band-admissible SPD matrices), mju_sqrMatTDSparse (legacy) and mju_sqrMatTDSparseSymbolic/Numeric with and without supernodes (against mju_sqrMatTD), the supernode path of mju_mulMatVecSparse (AVX only). Observed accuracy limits of the real code, encoded in the oracle tolerances and reported, not treated as violations: mju_eig3 stops rotating below 1.4e-6 rad (early exit `c > 1 - eigEPS`), leaving |A V - V diag| up to ~3.5e-6 * max|A| while eigenvalues and orthonormality are accurate to 1e-12; mju_QCQP* run at most 20 Newton steps from la = 0 and return the last iterate unprojected, so feasibility is reached only when |unconstrained minimiser| / r is below ~100 (the engine projects afterwards: `in case QCQP is approximate`); the oracle checks stationarity everywhere and feasibility / tightness for ratios <= 30. mju_transposeSparse addresses mat / colind relative to rowadr[0] (calling convention of the C code), the theorem is for rowadr[0] = 0, the correspondence also covers gaps between rows. res_rowsuper outputs are not modelled (NULL).",
+    "text": "Models (lean/MjProof/Model/LinAlg.lean, Model/Sparse.lean) of mju_dot, mju_mulMatVec, mju_mulMatTVec, mju_sqrMatTD, mju_cholFactor, mju_cholSolve, mju_cholUpdate, mju_dense2Band, mju_band2Dense, mju_bandDiag, mju_factorLU, mju_solveLU, mju_dotSparse, mju_mulMatVecSparse, mju_mulMatTVecSparse, mju_addToSymSparse, mju_mulSymVecSparse, mju_sparse2dense, mju_dense2sparse, mju_compressSparse, mju_transposeSparse (with and without res_rowsuper), mju_superSparse, mju_combineSparseCount and mju_combineSparse. Proved for every size and every input (over the reals): mju_dot (4-accumulator unrolling + remainder group) and mju_mulMatVec / mju_mulMatTVec / mju_sqrMatTD equal the sums that define them; band_dense_roundtrip: for all ntotal, nband >= 1, ndense <= ntotal and both flg_sym, band2Dense(dense2Band(A)) reproduces A on every band-admissible entry, is 0 elsewhere in the lower triangle and 0 / mirrored above the diagonal, with every access in range, and mju_bandDiag is the address of (i,i); on ANY CSR-style pattern (row extents inside the buffers and stored columns < nc are the only assumptions: empty rows, unsorted and duplicate columns, gaps, rows in any order, the uncompressed layout): mju_dotSparse = dense dot with the scattered vector, mju_mulMatVecSparse = dense M v, mju_mulMatTVecSparse = dense M^T v (zero multipliers skipped), mju_addToSymSparse = dense addition with optional mirroring; mju_mulSymVecSparse on symmetric lower-triangular storage (diagonal last in every row) = (D + strict_lower(D)^T) v with every access in range; with distinct columns per row mju_sparse2dense writes the represented matrix; sparse2dense(dense2sparse(M)) = M whenever the capacity is at least the number of non-zeros (no overflow exit, valid sorted pattern), and dense2sparse(sparse2dense(P)) represents the same matrix as P; mju_compressSparse (rows in increasing address order) performs only in-range accesses, makes the rows contiguous and keeps exactly the entries with |v| > minval (all of them for minval < 0); mju_transposeSparse (addresses relative to rowadr[0] = 0, enough output capacity) performs only in-range accesses and its output row c represents column c of the input, contiguous, with valid and non-decreasing column indices; transposeSparse_rowsuper: with res_rowsuper != NULL (marking statements interleaved with the placement loop, c_prev reset per input row) the other outputs are exactly those of the NULL call, every access is in range, and on ANY pattern the result rows c .. c+res_rowsuper[c] have identical nnz and colind sequences (what mju_sqrMatTDSparse* through rowsuperT and the AVX mju_mulMatVecSparse rely on), the array has run-length structure, and for input rows with increasing columns the runs are maximal; superSparse_exact: on any pattern rowsuper[r] is exactly the number of consecutive following rows identical to row r; mju_combineSparse on strictly increasing index arrays whose union fits the buffers performs only in-range accesses, returns nnz = size of the union (as counted by mju_combineSparseCount), a strictly increasing result pattern and a*dst + b*src as the represented vector (in-place backward merge, identical-pattern fast path and the a == 1 shortcut included); cholSolve_correct: for every matrix with non-zero diagonal mju_cholSolve solves (L L^T) x = b with L the lower triangle (upper triangle ignored); cholFactor_reconstructs_partial: if mju_cholFactor reports full rank (mindiag > 0) then L has positive diagonal, L L^T = A on the lower triangle and the upper triangle is untouched, hence (for symmetric A) factor + solve gives A x = b; cholUpdate_eq_refactor_partial: if mju_cholUpdate reports rank n then L' L'^T = L L^T +/- x x^T; certificate theorems: A V = V diag(lam), V^T V = I imply A = V diag(lam) V^T with eigenvector columns (eig3), KKT sign conditions imply global optimality of a box-constrained QP with symmetric PSD Hessian (boxQP), and stationarity + complementary slackness with a non-negative multiplier imply global optimality for the ellipsoid-constrained QP (QCQP2/3/QCQP).",
+    "note": "Real numbers, not IEEE: rounding is outside the proofs (the tie to the compiled code is bitwise on Float in the scalar build; in the AVX build only the sign of a zero could differ, none observed). `_partial` theorems: cholFactor is proved correct on the full-rank path (what is missing: that an SPD input always takes it; the deficiency branch that substitutes mindiag and clears the column is covered by the correspondence only); cholUpdate is proved to produce *a* Cholesky factor of the updated matrix on the no-rank-loss path (uniqueness of the factor, i.e. literal equality with mju_cholFactor of the updated matrix, and the mjMINVAL branch are not proved). Modelled and tied bitwise but without a theorem (sampled: differential + dense oracle): mju_factorLU / mju_solveLU (oracle: L U = P A, (L U) x = P b). Not modelled, oracle only on the real code: mju_eig3, mju_boxQP, mju_QCQP2/3/QCQP (iterative; checked against the certificates whose soundness is proved), mju_cholFactorBand / mju_cholSolveBand / mju_bandMulMatVec (against dense arithmetic on band-admissible SPD matrices), mju_sqrMatTDSparse, mju_sqrMatTDSparse_row and mju_sqrMatTDSparseSymbolic/Numeric with and without the transposed supernodes of mju_transposeSparse, lower triangle and (diagind != NULL) full matrix, compressed and uncompressed input (against mju_sqrMatTD), the supernode path of mju_mulMatVecSparse (AVX only) with the supernodes of mju_superSparse and with those of mju_transposeSparse (M' v). Supernode-related ops are sampled on random patterns and on structured ones whose transpose has supernodes and near-supernodes (adjacent columns with equal counts in different rows, block staircases where a row starts in the column after the previous row's last one, all small patterns); the kinds are counted in supernode_pattern_kinds. Observed accuracy limits of the real code, encoded in the oracle tolerances and reported, not treated as violations: mju_eig3 stops rotating below 1.4e-6 rad (early exit `c > 1 - eigEPS`), leaving |A V - V diag| up to ~3.5e-6 * max|A| while eigenvalues and orthonormality are accurate to 1e-12; mju_QCQP* run at most 20 Newton steps from la = 0 and return the last iterate unprojected, so feasibility is reached only when |unconstrained minimiser| / r is below ~100 (the engine projects afterwards: `in case QCQP is approximate`); the oracle checks stationarity everywhere and feasibility / tightness for ratios <= 30. mju_transposeSparse addresses mat / colind relative to rowadr[0] (calling convention of the C code), the theorem is for rowadr[0] = 0, the correspondence also covers gaps between rows. For unsorted / duplicate input columns mju_transposeSparse may report fewer supernodes than exist (sound, not maximal): only soundness is proved and checked there.",
 }
 
 P = "MjProof.C23."
@@ -28,7 +30,8 @@ THEOREMS = [P + t for t in (
     "band_dense_roundtrip", "bandDiag_eq_addr",
     "dotSparse_eq_dense", "mulMatVecSparse_eq_dense", "mulMatTVecSparse_eq_dense", "addToSymSparse_eq_dense",
     "sparse2dense_eq_dense", "sparse2dense_dense2sparse", "dense2sparse_sparse2dense",
-    "compressSparse_preserves", "transposeSparse_eq_dense", "mulSymVecSparse_eq_dense",
+    "compressSparse_preserves", "transposeSparse_eq_dense", "transposeSparse_rowsuper", "superSparse_exact",
+    "mulSymVecSparse_eq_dense",
     "combineSparseCount_eq", "combineSparse_eq_dense",
     "eig3_certificate", "boxQP_certificate", "QCQP_certificate",
 )]
@@ -105,13 +108,15 @@ def spd(rng, n, cond_exp=2):
     return [A[i][j] for i in range(n) for j in range(n)]
 
 
-def pattern(rng, nr, nc, layout=None, sorted_unique=True, garbage_lt_nc=False, maxrow=None):
+def pattern(rng, nr, nc, layout=None, sorted_unique=True, garbage_lt_nc=False, maxrow=None, rows=None):
     """random CSR-style pattern -> (cap, rownnz, rowadr, colind); rows may be empty; layouts: compressed,
-    uncompressed (rowadr = r*nc), gaps (random slack between rows), shuffled (rows stored out of order)"""
+    uncompressed (rowadr = r*nc), gaps (random slack between rows), shuffled (rows stored out of order);
+    `rows` (list of column lists) fixes the stored entries, only the layout is drawn"""
     layout = layout or rng.choice(("compressed", "compressed", "uncompressed", "gaps", "shuffled"))
-    rows = []
+    given = rows is not None
+    rows = list(rows) if given else []
     pe = rng.choice((0.0, 0.2, 0.5))
-    for r in range(nr):
+    for r in range(0 if given else nr):
         if nc == 0 or rng.random() < pe:
             rows.append([])
             continue
@@ -123,7 +128,7 @@ def pattern(rng, nr, nc, layout=None, sorted_unique=True, garbage_lt_nc=False, m
         else:
             rows.append([rng.randrange(nc) for _ in range(k)])
     # supernode-like repetition of the previous row's pattern
-    for r in range(1, nr):
+    for r in range(1, 0 if given else nr):
         if rng.random() < 0.25:
             rows[r] = list(rows[r - 1])
     if layout == "uncompressed":
@@ -150,6 +155,117 @@ def pattern(rng, nr, nc, layout=None, sorted_unique=True, garbage_lt_nc=False, m
             colind[rowadr[r] + k] = c
     rownnz = [len(x) for x in rows]
     return cap, rownnz, rowadr, colind, layout
+
+
+SUPER_KINDS = ("columns", "staircase", "tiny", "rows")
+
+
+def super_rows(rng, nr, nc, kind=None):
+    """rows (sorted, distinct columns) whose TRANSPOSE has supernodes (adjacent columns with the same row set) and
+    near-supernodes (adjacent columns with equally many entries in different rows; rows that begin in the column
+    after the one where the previous row ended).  kinds:
+      columns    column by column: copy of the previous column's row set / same size, other rows / one row moved / fresh
+      staircase  block structure as in a constraint Jacobian: consecutive column blocks, every row covers a contiguous
+                 range of one block (successive rows continue in the next block), a few rows span several blocks
+      tiny       every entry present with probability 1/2 (meant for nr, nc <= 4: covers most small patterns)
+      rows       row by row: copy of the previous row / same size, other columns / fresh (supernodes of the matrix itself)
+    -> (rows, kind)"""
+    kind = kind or rng.choice(SUPER_KINDS)
+    rows = [[] for _ in range(nr)]
+    if nr == 0 or nc == 0:
+        return rows, kind
+    if kind == "columns":
+        cur = set(rng.sample(range(nr), rng.randint(0, nr)))
+        for c in range(nc):
+            u = rng.random()
+            if c == 0 or u < 0.25:
+                cur = set(rng.sample(range(nr), rng.randint(0, min(nr, rng.choice((2, 4, nr))))))
+            elif u < 0.45:
+                cur = set(rng.sample(range(nr), len(cur)))         # same count, other rows
+            elif u < 0.6 and 0 < len(cur) < nr:
+                cur = set(cur)
+                cur.remove(rng.choice(sorted(cur)))                # same count, one row moved
+                cur.add(rng.choice([r for r in range(nr) if r not in cur]))
+            # else: identical to the previous column
+            for r in cur:
+                rows[r].append(c)
+    elif kind == "staircase":
+        cuts = sorted(set([0, nc] + [rng.randrange(nc + 1) for _ in range(rng.randint(0, 4))]))
+        blocks = [(a, b) for a, b in zip(cuts, cuts[1:]) if b > a]
+        bi = 0
+        for r in range(nr):
+            u = rng.random()
+            if u < 0.15:
+                continue                                           # empty row
+            if u < 0.35:                                           # row spanning several blocks
+                i = rng.randrange(len(blocks))
+                j = rng.randrange(i, len(blocks))
+                rows[r] = list(range(blocks[i][0], blocks[j][1]))
+                if rng.random() < 0.3 and len(rows[r]) > 1:
+                    rows[r].remove(rng.choice(rows[r]))
+                continue
+            a, b = blocks[bi % len(blocks)]
+            bi += rng.choice((1, 1, 1, 0, 2))
+            if rng.random() < 0.3:
+                a = rng.randint(a, b - 1)
+            if rng.random() < 0.3:
+                b = rng.randint(a + 1, b)
+            rows[r] = list(range(a, b))
+    elif kind == "tiny":
+        rows = [[c for c in range(nc) if rng.random() < 0.5] for _ in range(nr)]
+    else:
+        for r in range(nr):
+            u = rng.random()
+            if r == 0 or u < 0.3:
+                rows[r] = sorted(rng.sample(range(nc), rng.randint(0, min(nc, rng.choice((2, 5, nc))))))
+            elif u < 0.5:
+                rows[r] = sorted(rng.sample(range(nc), len(rows[r - 1])))
+            else:
+                rows[r] = list(rows[r - 1])
+    return rows, kind
+
+
+def super_dims(rng, kind, hi=14):
+    if kind == "tiny":
+        return rng.randint(1, 4), rng.randint(1, 4)
+    return max(1, size(rng, hi)), max(1, size(rng, hi))
+
+
+def run_lengths(seqs):
+    """exact supernode array of a list of rows: number of following rows identical to row i, consecutively"""
+    n = len(seqs)
+    sup = [0] * n
+    for i in range(n - 2, -1, -1):
+        if seqs[i] == seqs[i + 1]:
+            sup[i] = sup[i + 1] + 1
+    return sup
+
+
+def check_super(sup, seqs, exact, who):
+    """sup: reported rowsuper; seqs: the rows (column index sequences) it talks about.  Soundness (every reported
+    supernode consists of identical rows) and run structure always; exactness (maximal runs) when `exact`."""
+    n = len(seqs)
+    if len(sup) != n:
+        return who + ": rowsuper has the wrong length"
+    want = run_lengths(seqs)
+    for i in range(n):
+        if sup[i] < 0 or i + sup[i] >= n:
+            return who + ": rowsuper[%d] = %d reaches past the last row" % (i, sup[i])
+        if sup[i] > want[i]:
+            return (who + ": rowsuper[%d] = %d but rows %d and %d have different sparsity patterns"
+                    % (i, sup[i], i + want[i], i + want[i] + 1))
+        if sup[i] > 0 and sup[i + 1] != sup[i] - 1:
+            return who + ": rowsuper[%d] = %d is not followed by %d" % (i, sup[i], sup[i] - 1)
+        if exact and sup[i] != want[i]:
+            return who + ": rowsuper[%d] = %d, the run of identical rows has length %d" % (i, sup[i], want[i])
+    return None
+
+
+SUPER_COV = {"lines": 0, "lines with a supernode": 0,
+             "adjacent result rows, equal nnz > 0, different pattern (flag must be cleared)": 0,
+             "input rows starting one column after the previous non-empty row's last column": 0,
+             "lines with unsorted or duplicate input columns (soundness only)": 0}
+SUPER_HIST = {}    # generator kind -> number of supernode-related lines (recorded in ctx.extra)
 
 
 def patstr(nr, nc, cap, rownnz, rowadr, colind):
@@ -269,6 +385,32 @@ def gen_lines(ctx, n_each):
             pass
         tot = sum(rownnz)
         add("sptr:" + lay, J("sptr", patstr(nr, nc, cap, rownnz, rowadr, colind), tot + rng.choice((0, 0, 2)), fv(rvec(rng, cap))))
+        # transpose with res_rowsuper: half random patterns (incl. unsorted / duplicate columns), half structured ones
+        if rng.random() < 0.5:
+            nr, nc = size(rng, 16), size(rng, 16)
+            cap, rownnz, rowadr, colind, lay = pattern(rng, nr, nc, layout=rng.choice(("compressed", "compressed", "uncompressed", "gaps")),
+                                                       garbage_lt_nc=True, sorted_unique=rng.random() < 0.7)
+            kind = "random"
+        else:
+            kind = rng.choice(SUPER_KINDS)
+            nr, nc = super_dims(rng, kind, 16)
+            rows, kind = super_rows(rng, nr, nc, kind)
+            cap, rownnz, rowadr, colind, lay = pattern(rng, nr, nc, layout=rng.choice(("compressed", "compressed", "uncompressed", "gaps")),
+                                                       garbage_lt_nc=True, rows=rows)
+        SUPER_HIST["sptrs:" + kind] = SUPER_HIST.get("sptrs:" + kind, 0) + 1
+        add("sptrs:" + lay, J("sptrs", patstr(nr, nc, cap, rownnz, rowadr, colind), sum(rownnz) + rng.choice((0, 0, 2)), fv(rvec(rng, cap))))
+        # supernodes of the matrix itself (any layout, rows in any order, unsorted / duplicate columns)
+        if rng.random() < 0.5:
+            nr, nc = size(rng, 16), size(rng, 16)
+            cap, rownnz, rowadr, colind, lay = pattern(rng, nr, nc, sorted_unique=rng.random() < 0.7)
+            kind = "random"
+        else:
+            kind = rng.choice(("rows", "rows", "tiny", "staircase"))
+            nr, nc = super_dims(rng, kind, 16)
+            rows, kind = super_rows(rng, nr, nc, kind)
+            cap, rownnz, rowadr, colind, lay = pattern(rng, nr, nc, rows=rows)
+        SUPER_HIST["spsuper:" + kind] = SUPER_HIST.get("spsuper:" + kind, 0) + 1
+        add("spsuper:" + lay, J("spsuper", patstr(nr, nc, cap, rownnz, rowadr, colind)))
         # combine
         n = max(1, size(rng, 30))
         da = sorted(rng.sample(range(n), rng.randint(0, min(n, 12))))
@@ -547,7 +689,13 @@ def oracle_diff_op(kind, line, out):
             if minval >= 0 and any(abs(vals[rowadr[r] + k]) <= minval for r in range(nr) for k in range(rownnz[r])):
                 return "mju_compressSparse kept a small element"
             return None
-        if op == "sptr":
+        if op == "spsuper":
+            pat, i = parse_pat(w, 1)
+            nr, nc, cap, rownnz, rowadr, colind = pat
+            sup = [int(x) for x in o]
+            rows = [colind[rowadr[r]:rowadr[r] + rownnz[r]] for r in range(nr)]
+            return check_super(sup, rows, True, "mju_superSparse")
+        if op in ("sptr", "sptrs"):
             pat, i = parse_pat(w, 1)
             nr, nc, cap, rownnz, rowadr, colind = pat
             capT = int(w[i])
@@ -559,7 +707,7 @@ def oracle_diff_op(kind, line, out):
             tn = [int(x) for x in o[0:nc]]
             ta = [int(x) for x in o[nc:2 * nc]]
             tc = [int(x) for x in o[2 * nc:2 * nc + capT]]
-            tv = [unhex(x) for x in o[2 * nc + capT:]]
+            tv = [unhex(x) for x in o[2 * nc + capT:2 * nc + 2 * capT]]
             D = dense_of(rel, mat)
             T = dense_of((nc, nr, capT, tn, ta, tc), tv)
             if any(T[c][r] != D[r][c] for r in range(nr) for c in range(nc)):
@@ -572,6 +720,23 @@ def oracle_diff_op(kind, line, out):
                 if row != sorted(row):
                     return "mju_transposeSparse: column indices of a result row not in increasing order"
                 adr += tn[c]
+            if op == "sptrs":
+                # res_rowsuper: sound on every pattern, exact when the input rows have increasing columns
+                # (theorems transposeSparse_rowsuper_sound / _exact)
+                sup = [int(x) for x in o[2 * nc + 2 * capT:]]
+                inrows = [colind[rowadr[r] - off:rowadr[r] - off + rownnz[r]] for r in range(nr)]
+                exact = all(all(a < b for a, b in zip(x, x[1:])) for x in inrows)
+                trows = [tc[ta[c]:ta[c] + tn[c]] for c in range(nc)]
+                # measured coverage of the situations the marking loop has to get right
+                SUPER_COV["lines"] += 1
+                SUPER_COV["lines with a supernode"] += any(run_lengths(trows))
+                SUPER_COV["adjacent result rows, equal nnz > 0, different pattern (flag must be cleared)"] += sum(
+                    1 for c in range(nc - 1) if tn[c] == tn[c + 1] and tn[c] and trows[c] != trows[c + 1])
+                ne = [x for x in inrows if x]
+                SUPER_COV["input rows starting one column after the previous non-empty row's last column"] += sum(
+                    1 for a, b in zip(ne, ne[1:]) if b[0] == a[-1] + 1)
+                SUPER_COV["lines with unsorted or duplicate input columns (soundness only)"] += not exact
+                return check_super(sup, trows, exact, "mju_transposeSparse")
             return None
         if op == "spcount":
             na, nb = int(w[1]), int(w[2])
@@ -785,11 +950,25 @@ def gen_oracle_lines(ctx, n):
         for i in range(nt):
             A[i * nt + i] = sum(abs(A[i * nt + j]) for j in range(nt)) + 1.0 + rng.random()
         out.append(("o_band", J("o_band", nt, nb, nd, fv(A), fv(rvec(rng, nt, "g")))))
-        # sparse squaring
-        nr, nc = max(1, size(rng, 14)), max(1, size(rng, 14))
-        cap, rownnz, rowadr, colind, lay = pattern(rng, nr, nc, layout="compressed")
-        out.append(("o_sqr", J("o_sqr", patstr(nr, nc, cap, rownnz, rowadr, colind), fv(rvec(rng, cap, "g")),
-                               fv([abs(x) for x in rvec(rng, nr, "g", pzero=0.2)]), rng.randint(0, 1))))
+        # sparse squaring and the other consumers of the transposed supernodes: random patterns and structured ones
+        # (supernodes / near-supernodes in the transpose), compressed and uncompressed layout
+        for opn in ("o_sqr", "o_trmv"):
+            if rng.random() < 0.4:
+                nr, nc = max(1, size(rng, 14)), max(1, size(rng, 14))
+                rows, kind = None, "random"
+            else:
+                kind = rng.choice(SUPER_KINDS)
+                nr, nc = super_dims(rng, kind)
+                rows, kind = super_rows(rng, nr, nc, kind)
+            SUPER_HIST[opn + ":" + kind] = SUPER_HIST.get(opn + ":" + kind, 0) + 1
+            cap, rownnz, rowadr, colind, lay = pattern(rng, nr, nc, layout=rng.choice(("compressed", "compressed", "uncompressed")),
+                                                       rows=rows)
+            if opn == "o_sqr":
+                out.append(("o_sqr", J("o_sqr", patstr(nr, nc, cap, rownnz, rowadr, colind), fv(rvec(rng, cap, "g")),
+                                       fv([abs(x) for x in rvec(rng, nr, "g", pzero=0.2)]), 1 if rng.random() < 0.75 else 0)))
+            else:
+                out.append(("o_trmv", J("o_trmv", patstr(nr, nc, cap, rownnz, rowadr, colind), fv(rvec(rng, cap, "g")),
+                                        fv(rvec(rng, nr, "g")))))
         # supernode path of mulMatVecSparse (AVX build batches rows; scalar ignores rowsuper)
         nr, nc = size(rng, 20), size(rng, 20)
         cap, rownnz, rowadr, colind, lay = pattern(rng, nr, nc)
@@ -970,8 +1149,14 @@ def oracle_only_op(kind, line, out):
             pat, i = parse_pat(w, 1)
             nr, nc = pat[0], pat[1]
             nH = int(o[0])
-            vals = [float(t) for t in o[1:]]
-            Hd, Ld, Rd = vals[:nc * nc], vals[nc * nc:2 * nc * nc], vals[2 * nc * nc:]
+            n2 = nc * nc
+            vals = [float(t) for t in o[1:1 + 3 * n2]]
+            Hd, Ld, Rd = vals[:n2], vals[n2:2 * n2], vals[2 * n2:]
+            nU, diag_ok = int(o[1 + 3 * n2]), int(o[2 + 3 * n2])
+            vals = [float(t) for t in o[3 + 3 * n2:]]
+            Ud, Fd, Wd = vals[:n2], vals[n2:2 * n2], vals[2 * n2:]
+            if len(Wd) != n2:
+                return "unparseable output (short): " + out[:80]
             sc = max([abs(v) for v in Rd] + [1e-300]) * nr
             for a in range(nc):
                 for b_ in range(a + 1):
@@ -979,7 +1164,35 @@ def oracle_only_op(kind, line, out):
                         return "mju_sqrMatTDSparseSymbolic/Numeric differs from dense M' D M (lower triangle)"
                     if not close(Ld[a * nc + b_], Rd[a * nc + b_], sc):
                         return "mju_sqrMatTDSparse (legacy) differs from dense M' D M (lower triangle)"
+                    if not close(Wd[a * nc + b_], Rd[a * nc + b_], sc):
+                        return "mju_sqrMatTDSparse_row differs from dense M' D M (lower triangle)"
+                for b_ in range(nc):
+                    if not close(Ud[a * nc + b_], Rd[a * nc + b_], sc):
+                        return "mju_sqrMatTDSparseSymbolic/Numeric with diagind differs from dense M' D M (full matrix)"
+                    if not close(Fd[a * nc + b_], Rd[a * nc + b_], sc):
+                        return "mju_sqrMatTDSparse with diagind differs from dense M' D M (full matrix)"
+            if diag_ok != 1:
+                return "mju_sqrMatTDSparse*: diagind does not address the diagonal entries"
             return None
+        if kind == "o_trmv":
+            pat, i = parse_pat(w, 1)
+            nr, nc, cap, rownnz, rowadr, colind = pat
+            mat, i = getf(w, i, cap)
+            v, i = getf(w, i, nr)
+            sup = [int(t) for t in o[:nc]]
+            res = [float(t) for t in o[nc:]]
+            trows = [[] for _ in range(nc)]
+            for r in range(nr):
+                for k in range(rownnz[r]):
+                    trows[colind[rowadr[r] + k]].append(r)
+            why = check_super(sup, trows, True, "mju_transposeSparse")
+            if why:
+                return why
+            D = dense_of(pat, mat)
+            ref = [math.fsum(D[r][c] * v[r] for r in range(nr)) for c in range(nc)]
+            sc = max([math.fsum(abs(D[r][c] * v[r]) for r in range(nr)) for c in range(nc)] + [0])
+            return None if vclose(res, ref, sc) else \
+                "mju_mulMatVecSparse with the supernodes of mju_transposeSparse differs from the dense product M' v"
     except (ValueError, IndexError, ZeroDivisionError, OverflowError) as e:
         return "unparseable output (%s): %s" % (type(e).__name__, out[:80])
     return None
@@ -1008,10 +1221,12 @@ def directed_search(ctx):
 
 def run(ctx):
     ctx.directed_search = directed_search
+    SUPER_HIST.clear()
     thorough = ctx.tier == "thorough"
     ctx.rule = ("op lines with hex-encoded doubles: sizes 0..40 weighted to the SIMD remainders 1..9; sparse patterns in "
                 "compressed / uncompressed (rowadr = r*nc) / gapped / shuffled layouts with empty rows, unsorted and "
-                "duplicate columns where the routine allows them; SPD, rank-deficient and indefinite matrices; a case is "
+                "duplicate columns where the routine allows them; for the supernode outputs and their consumers also "
+                "structured patterns (identical / equal-count adjacent columns, block staircases, all-small, repeated rows); SPD, rank-deficient and indefinite matrices; a case is "
                 "distinct by its full line; non-trivial = size >= 2")
     ctx.lean_props(THEOREMS)
     drv = ctx.driver("drv_c23")
@@ -1024,6 +1239,7 @@ def run(ctx):
     ctx.extra["op_histogram"] = hist
     opairs = gen_oracle_lines(ctx, 4000 if thorough else 150)
     olines = [l for _, l in opairs]
+    ctx.extra["supernode_pattern_kinds"] = dict(sorted(SUPER_HIST.items()))
 
     def keyf(l):
         w = l.split()
@@ -1068,6 +1284,9 @@ def run(ctx):
         ctx.extra["oracle_max_residual_over_tolerance_" + variant] = {k: float("%.3g" % v) for k, v in sorted(SLACK.items())}
         SLACK.clear()
         ctx.extra["qcqp_scope_" + variant] = dict(QCQP_STATS)
+        ctx.extra["sptrs_coverage_" + variant] = {k: int(v) for k, v in SUPER_COV.items()}
+        for k_ in SUPER_COV:
+            SUPER_COV[k_] = 0
         ctx.extra["eig3_max_rel_residual_" + variant] = EIG_DEV[0]
         for k_ in QCQP_STATS:
             QCQP_STATS[k_] = 0
